@@ -155,6 +155,7 @@ def gen(ctx):
     for t in PRIVATE_DOCS:
         for target in ("s", "value", "table", "dates", "owner"):
             add("S", f"doc {h(t.encode())} {target}", "fixed")
+            add("P", f"doc {h(t.encode())} {target}", "fixed")
     for t in [("d", "00:00:00"), ("t", [(b"", ("d", "00:00:00"))]), ("t", [(b"a", ("d", "00:00:00"))]), ("d", "1979-05-27T07:32:00Z"), ("t", [(b"a", ("d", "1979-05-27T07:32:00Z"))]), ("t", [(PRIVATE, ("s", b"1979-05-27"))]),
               ("t", [(b"a", ("t", [(PRIVATE, ("s", b"1979-05-27")), (b"b", ("i", 1))]))]), ("a", [("d", "07:32:00")]), ("i", 5), ("t", []),
               ("t", [(PRIVATE, ("a", []))]), ("t", [(PRIVATE, ("b", False))])]:
@@ -308,6 +309,9 @@ def run(ctx):
     if bins is None:
         ctx.violation("harness does not build against /repo", {"unchecked": "cargo build"}, concrete=False)
         return
+    from props import probe_compare as _pc
+    regression_lines(ctx, bins["S"], ["c13"], compare=_pc.fieldwise)
+    regression_lines(ctx, bins["P"], ["c13"], compare=_pc.fieldwise, suffix="_P", driver_mode="c13p")
     # tie of the dispatch tables of Model/DeRoutes.lean to the sources
     rc, out, err = run_lines(driver_path(), "c13", ["dispatch"])
     md = fields(out[0]) if out else {}
@@ -360,7 +364,7 @@ def run(ctx):
         bads.setdefault(sig, []).append((len(case), case, what, {"mode": "c13", "flavour": fl, "case": case, "text": text, "impl": i[:3000], "model": m[:3000], "witness": ("class:private-datetime-key-as-ordinary-key" if pk else case)}))
 
     for fl in "SP":
-        impl, model = run_pair(ctx, bins[fl], "c13", cases[fl])
+        impl, model = run_pair(ctx, bins[fl], "c13", cases[fl], driver_mode=("c13p" if fl == "P" else None))
         for c, (kind, exp), i, m in zip(cases[fl], meta[fl], impl, model):
             total += 1
             p = c.split(" ")
